@@ -39,6 +39,20 @@ def check_exact(st):
         eps = sig / E + (sig / Kprime) ** m
         case = {'E': E, "K'": Kprime, "n'": '1/%d' % m, 'K_p': float(kp), 'load': L, 'exact_stress': sig}
         law = ExtendedNeuber(E, Kprime, 1.0 / m, float(kp))
+        # the same material reached through the parameter setters of an object built with other values
+        try:
+            others = []
+            l2 = ExtendedNeuber(E, 2.0 * Kprime, 1.0 / m, float(kp)); l2.K = Kprime; others.append(('K', l2))
+            l3 = ExtendedNeuber(E, 0.5 * Kprime, 1.0 / m, float(kp)); l3.K_prime = Kprime; others.append(('K_prime', l3))
+            l4 = ExtendedNeuber(E, Kprime, 1.0 / m, float(kp) + 1.5); l4.K_p = float(kp); others.append(('K_p', l4))
+            with warnings.catch_warnings():
+                warnings.simplefilter('ignore')
+                for nm, lw in others:
+                    got = scalar(lw.stress(L, rtol=1e-10, tol=1e-10))
+                    if not abs(got - sig) <= 4e-10 * (1 + abs(sig)):
+                        viol.append(('after setting %s on an existing law object the stress is not the root for the current parameters' % nm, case, sig, got))
+        except Exception:
+            raised += 1
         for rtol, tol in TOLS:
             n += 1
             band = lambda x, f=1.0: 2 * f * (tol + rtol * abs(x)) + 1e-12 * abs(x)
@@ -91,6 +105,11 @@ def check_exact(st):
                     viol.append(('load(stress) is not the load whose root the stress is', cs, L, lb))
                 if not abs(lbs - 2 * L) <= band(2 * L, 2):
                     viol.append(('load range of the stress range 2 sigma is not 2L', cs, 2 * L, lbs))
+                # array inputs of the backward functions (a solver that does not converge returns its last iterate for arrays, with a warning only)
+                la = np.asarray(law.load(np.array([sig, -sig]), rtol=rtol, tol=tol), dtype=np.float64)
+                lsa = np.asarray(law.load_secondary_branch(np.array([2 * sig, -2 * sig]), rtol=rtol, tol=tol), dtype=np.float64)
+                if not (abs(la[0] - L) <= band(L, 2) and abs(la[1] + L) <= band(L, 2) and abs(lsa[0] - 2 * L) <= band(2 * L, 2) and abs(lsa[1] + 2 * L) <= band(2 * L, 2)):
+                    viol.append(('backward functions with array input do not return the loads whose roots the stresses are', cs, [L, -L, 2 * L, -2 * L], la.tolist() + lsa.tolist()))
                 lbn = scalar(law.load(-sig, rtol=rtol, tol=tol))
                 lbsn = scalar(law.load_secondary_branch(-2 * sig, rtol=rtol, tol=tol))
                 if not (abs(lbn + L) <= band(L, 2) and abs(lbsn + 2 * L) <= band(2 * L, 2)):
@@ -211,6 +230,16 @@ def _walk(args):
                 except Exception:
                     nraised += 1
                     st['lgLbs'] = 0
+                st['lgLbArr'] = st['lgLbsArr'] = 0
+                if law_id == 'EN':      # array inputs of the backward functions (extended Neuber; Seeger-Beste documents them for scalars only)
+                    try:
+                        st['lgLbArr'] = lg(np.asarray(law.load(np.array([s, 0.5 * s]), rtol=rtol, tol=tol), dtype=np.float64)[0])
+                    except Exception:
+                        nraised += 1
+                    try:
+                        st['lgLbsArr'] = lg(np.asarray(law.load_secondary_branch(np.array([d, 0.5 * d]), rtol=rtol, tol=tol), dtype=np.float64)[0])
+                    except Exception:
+                        nraised += 1
                 try:       # backward functions for the mirrored stress: magnitude as logged value, sign folded into signs_ok
                     lbn = scalar(law.load(sn, rtol=rtol, tol=tol))
                     st['lgLbneg'] = lg(lbn)
@@ -222,7 +251,7 @@ def _walk(args):
             except Exception as ex:
                 nraised += 1
                 st = {'lgL': lg(L), 'raised': True, 'lgS': 0, 'lgSneg': 0, 'signs_ok': True, 'lgD': 0, 'forms': [], 'lgEps': 0, 'lgEpsRO': 0, 'lgDEps': 0, 'lgDEpsRO': 0,
-                      'resP': 0, 'resS': 0, 'lgLb': 0, 'lgLbs': 0, 'lgLbneg': 0, 'error': repr(ex)[:120]}
+                      'resP': 0, 'resS': 0, 'lgLb': 0, 'lgLbs': 0, 'lgLbneg': 0, 'lgLbArr': 0, 'lgLbsArr': 0, 'error': repr(ex)[:120]}
             steps.append(st)
     smin = smin or 1.0
     tau = int(math.ceil(2 ** 20 * math.log2(1 + 4 * (rtol + tol / smin)))) + 2
